@@ -31,8 +31,16 @@ MANIFEST = {
 }
 
 
+# literals that do not denote a value (out-of-range escapes, a negated uint) on their own, inside container literals and in absorbing
+# positions: the compiled runner decodes literals while it builds the program, the interpreter when it reaches them
+SPELLED = [r"'\U00110000'", r"['\U00110000']", r"{'a': '\U00110000'}", r"size(['\U00110000', s1])", r"[b'\400']", r"size([b'\400']) == 1 || b1", r"{'\U00110000': 1}",
+           "-0u", "[-0u]", "size([-0u, 1u])", "{'k': -0u}", "-0u == 0u || true", "b1 ? 1u : -0u", "[1u].map(x, -0u)", "-00u", "-0x0u", "[1, 2].exists(x, -0u == 1u || x == 2)",
+           r"'\U00110000' == s1 || true", r"b1 ? s1 : '\U00110000'", r"[s1].map(x, '\U00110000')", r"has({'a': '\U00110000'}.a)", r"['\ud800', s1]", r"size(b'\xff') + i1"]
+
+
 def all_skeletons(tier):
     out = [(t, s, "gen") for t, s, _ in gen.skeletons(1 if tier == "quick" else 2)]
+    out += [("?", s, "gen") for s in SPELLED]
     if tier == "thorough":
         from . import corpus
         out += [("?", s, "corpus") for s in corpus.lifted_skeletons()]
